@@ -202,3 +202,17 @@ func (c *Client) VerifTryStateLock() bool {
 
 // VerifQueues returns the number of queued, unprocessed incoming and outgoing events.
 func (c *Client) VerifQueues() (rx, tx int) { return len(c.rx), len(c.tx) }
+
+// VerifServerOptions returns a sorted dump of the server options map.
+func (c *Client) VerifServerOptions() (keys, vals []string) {
+	c.state.RLock()
+	defer c.state.RUnlock()
+	for k := range c.state.serverOptions {
+		keys = append(keys, k)
+	}
+	sort.Strings(keys)
+	for _, k := range keys {
+		vals = append(vals, c.state.serverOptions[k])
+	}
+	return keys, vals
+}
